@@ -80,7 +80,7 @@ type FieldSpec struct {
 
 // ReqSpec says which sources carry a value for which field.
 type ReqSpec struct {
-	Body   string                         `json:"body"`   // "none", "form", "multipart", "json"
+	Body string `json:"body"` // "none", "form", "multipart", "json"
 	// CT: how the media type of a json body is spelled ("" = application/json); media types are case-insensitive
 	CT string `json:"content_type,omitempty"`
 	// Streamed: the json body arrives chunked on a server that streams request bodies (the request carries a body stream, no length)
@@ -90,6 +90,9 @@ type ReqSpec struct {
 	// Recycled: the request is parsed into a Request object that carried another request (with User-Agent, Content-Type,
 	// cookies, a body) and was Reset, as the server's context pool does on every connection
 	Recycled bool `json:"recycled,omitempty"`
+	// NoNorm: the server keeps header names as they were sent (WithDisableHeaderNamesNormalizing) and the client spells
+	// them in upper case; names are case-insensitive all the same
+	NoNorm bool                           `json:"header_names_not_normalized,omitempty"`
 	Values map[string]map[string][]string `json:"values"` // field -> source -> texts
 }
 
@@ -232,10 +235,13 @@ func genFields(t *rapid.T) []FieldSpec {
 				}
 				f.Tags[s] = key
 			}
+			if _, has := f.Tags["json"]; !has && len(f.Tags) > 0 && rapid.IntRange(0, 4).Draw(t, "jsonSkipped") == 0 {
+				f.Tags["json"] = "-" // the field is kept out of the body; a body key with the field's Go name is a decoy
+			}
 			if len(f.Tags) > 0 && rapid.IntRange(0, 3).Draw(t, "required") == 0 {
 				var ts []string
 				for _, s := range sources {
-					if _, ok := f.Tags[s]; ok {
+					if _, ok := keyFor(&f, s); ok {
 						ts = append(ts, s)
 					}
 				}
@@ -292,6 +298,9 @@ func buildType(fs []FieldSpec) reflect.Type {
 }
 
 func keyFor(f *FieldSpec, src string) (string, bool) {
+	if src == "json" && f.Tags["json"] == "-" {
+		return "", false // `json:"-"`: the body is no source for this field
+	}
 	if len(f.Tags) == 0 {
 		return f.Name, true // untagged: the field name, for every source
 	}
@@ -318,6 +327,7 @@ func genReq(t *rapid.T, fs []FieldSpec, allowInvalid bool) (ReqSpec, bool) {
 		r.CT = rapid.SampledFrom([]string{"", "", "", "Multipart/Form-Data; boundary=BOUND", "multipart/form-data; Boundary=BOUND", "multipart/form-data; charset=utf-8; boundary=BOUND"}).Draw(t, "contentTypeSpelling")
 	}
 	r.Recycled = rapid.IntRange(0, 2).Draw(t, "recycledRequest") == 0
+	r.NoNorm = rapid.IntRange(0, 3).Draw(t, "headerNamesNotNormalized") == 0
 	invalid := false
 	for i := range fs {
 		f := &fs[i]
@@ -388,6 +398,9 @@ func encode(fs []FieldSpec, r ReqSpec) ([]byte, param.Params) {
 			case "cookie":
 				cookies = append(cookies, key+"="+strings.NewReplacer(" ", "%20", "é", "e").Replace(texts[0]))
 			case "header":
+				if r.NoNorm {
+					key = strings.ToUpper(key)
+				}
 				headers = append(headers, key+": "+strings.ReplaceAll(texts[0], "é", "e"))
 			case "json":
 				jv := func(x string) string {
@@ -414,6 +427,18 @@ func encode(fs []FieldSpec, r ReqSpec) ([]byte, param.Params) {
 					jsonParts = append(jsonParts, strconv.Quote(key)+":"+jv(texts[0]))
 				}
 			}
+		}
+	}
+	for i := range fs {
+		if f := &fs[i]; f.Tags["json"] == "-" && r.Body == "json" {
+			decoy := map[reflect.Kind]string{reflect.String: `"decoy"`, reflect.Bool: "true"}[f.kind]
+			if decoy == "" {
+				decoy = "1"
+			}
+			if f.Shape == "slice" {
+				decoy = "[" + decoy + "]"
+			}
+			jsonParts = append(jsonParts, strconv.Quote(f.Name)+":"+decoy)
 		}
 	}
 	target := "/bind"
@@ -540,6 +565,9 @@ func bindOnce(c *genCase, wire []byte, params param.Params, validate bool) (refl
 		}
 		r.Reset()
 	}
+	if c.Req.NoNorm {
+		r.Header.DisableNormalizing()
+	}
 	if c.Req.Body == "json" && c.Req.Streamed {
 		zr := mock.NewZeroCopyReader(string(wire))
 		if err := req.ReadHeader(&r.Header, zr); err != nil {
@@ -638,6 +666,9 @@ func classify(c *genCase) (bool, []string) {
 	if c.Req.PreRead {
 		cls = append(cls, "body-read-before-bind")
 	}
+	if c.Req.NoNorm {
+		cls = append(cls, "header-names-not-normalized")
+	}
 	if c.Req.CT != "" {
 		cls = append(cls, "content-type-spelling")
 	}
@@ -659,6 +690,9 @@ func classify(c *genCase) (bool, []string) {
 			cls = append(cls, "required-or-default-without-value")
 		}
 		cls = append(cls, "shape-"+f.Shape)
+		if f.Tags["json"] == "-" {
+			cls = append(cls, "json-tag-skipped")
+		}
 		if len(f.Tags) == 0 {
 			cls = append(cls, "untagged-field")
 		}
